@@ -1,15 +1,20 @@
 """C16 -- a line means the same at the prompt, with -c, in a script, function or source.
-L1a  the script path's pass (scripting::expand_args) vs the extracted model, and the LAW itself on the
-     implementation's own output (tokens of every list segment before and after the pass), on every short
-     string over the tokenizer alphabet; outside the classes of known_c16 (decided by the extracted model)
-     the law must hold, inside them three-way (as the model predicts / repaired / anything else).
+L1a  the script path's pass (scripting::expand_args) vs the extracted model and the LAW itself on the
+     implementation's own output: for every complete line without positional parameters the list segments and
+     their tokens after the pass equal those of the line as written (no exception classes since 032e44d);
+     every short string over the tokenizer alphabet. The re-rendering (tokens_to_line o parse_line), still
+     used for lines with positional parameters, is compared with the model on the same strings.
 L1b  same on the C01 / C03 line generators plus redirection, $VAR, brace, substitution words; the pass with
      script arguments present must not touch a positional-free line; lines WITH positional parameters
-     are compared with the model on the same observable (expand_args_for_single_token).
+     are compared with the model on the same observable.
 L1c  is_args_in_token, expand_args_for_single_token, wrap_sep_string, tokens_to_line on short inputs.
 L2   real binary: each line through -c, script file, function body, sourced file (and a sample through the
      interactive prompt on a pty); argv seen by the helper, stdout, files, status compared pairwise with -c.
-     The model predicts script(l) == -c(rerender l); the property demands script(l) == -c(l)."""
+     Script texts with continuation lines: cicada on the text vs cicada on the model's folding of it
+     (run_script's fold is inline code, no hook: process level only). Known class trailing-backslash:
+     three-way against the model's fold.
+Out of the domain at the prompt: lines containing `!!` (history expansion exists only there) and lines
+whose helper reads stdin (a terminal there)."""
 import itertools, os, re, shutil, subprocess, tempfile, time
 from concurrent.futures import ThreadPoolExecutor
 import common as C
@@ -20,41 +25,32 @@ EXTRACT = ["C16"]
 BINS = ["c16"]
 NEEDS_CICADA = True
 ALLOWED_AXIOMS = []
-PINNED = ["C16_full", "C16_refuted", "C16_partial", "C16_partial_plan", "C16_inverse", "C16_spaced", "C16_quoted",
-          "C16_script_pass", "C16_fixed_full", "C16_refuted_esc_op", "C16_refuted_esc_blank", "C16_refuted_esc_hash",
-          "C16_refuted_glue", "C16_refuted_orglue", "C16_refuted_paren"]
+PINNED = ["C16_full", "C16_full_any_pass", "C16_positional_pass", "C16_partial", "C16_partial_plan", "C16_inverse",
+          "C16_spaced", "C16_quoted", "C16_regression_esc_op", "C16_regression_esc_blank", "C16_regression_esc_hash",
+          "C16_regression_glue", "C16_regression_orglue", "C16_regression_paren", "C16_fold_full", "C16_fold_refuted",
+          "C16_fold_fixed_full"]
 TRUSTED = [
     "Coq 8.16.1 kernel; vm_compute only in witnesses / examples",
     "hand transcription of expand_args, expand_args_in_tokens, expand_args_for_single_token (first-match function for its "
     "capture regex), is_args_in_token, tokens_to_line, wrap_sep_string (Model/Rerender.v), parse_line (Model/Tokenizer.v), "
     "line_to_cmds (Model/Cmds.v); tied by differential execution on every run",
     "extraction ExtrOcamlBasic; ocaml/c16/drv.ml; harness/src/bin/c16.rs; helpers/hp.c; drive/c16.py",
-    "the class predicate known_c16 is part of the model (extracted), not of the driver",
+    "run_script's continuation folding (Model/Rerender.v fold_lines: a scanner for its two replace_all calls) is tied "
+    "at process level only (inline code, no hook)",
 ]
 ASSUMES = [
     "everything after tokenizing is a function of (list segments, their tokens): the law is judged on those at L1 and on "
     "argv / stdout / files / status of helper programs at L2",
     "the interactive path adds only trim_multiline_prompts (identity without newline) and extend_bangbang (identity "
     "without a double bang / on the first line); sampled through a pty",
-    "that list splitting commutes with the round trip outside the known classes is validated on short lines "
-    "exhaustively, not proved",
+    "function definitions, `source` and the block grammar deliver each physical line to expand_args unchanged "
+    "(trimmed): validated at L2, modelled by C14/C15",
 ]
 
 TOKALPHA = G1.TOKALPHA
 HXENV = {"HX_CASE_TIMEOUT_MS": "30000"}      # the cases take microseconds; a loaded machine must not look like a hang
-CLASSES = ["esc-lost", "quote-glued", "paren", "or-glued"]
+REGRESSION = ["echo a\\;b", "echo a\\ b", "echo a\\#b", "echo 'a';echo b", "true||echo b", "(a;b)", "echo a\\|b", "echo \\'", "a\\\\"]
 LAW = re.compile(r"c=(\d) p=(\d) (?:k=(\d{4}) )?D=(.*) S=(.*)$")
-
-
-def klass(k):
-    for i, n in enumerate(CLASSES):
-        if k[i] == "1":
-            return n
-    return None
-
-
-def strip_k(m):
-    return re.sub(r" k=\d{4}", "", m, 1)
 
 
 def gen_domain_lines(ctx, hp="prog"):
@@ -94,50 +90,27 @@ def gen_domain_lines(ctx, hp="prog"):
     return lines
 
 
-def check_law(res, layer, lines, mo, io, known, st, V):
-    """compares model and implementation on `law` cases and applies the property oracle"""
+def check_law(res, layer, lines, mo, io, st, V):
+    """model == implementation on `law` cases, and the property's oracle on the implementation's output"""
     for s, a, b in zip(lines, mo, io):
-        ma, mb = LAW.match(a), LAW.match(b)
-        if ma is None or mb is None:
-            if strip_k(a) != b:
-                V("correspondence", layer, s, a, b, False, "expand_args: outcome differs from the model (panic / hang)")
+        if a != b:
+            mb = LAW.match(b)
+            failing = bool(mb and mb.group(1) == "1" and mb.group(2) == "0" and mb.group(4) != mb.group(5))
+            V("oracle" if failing else "correspondence", layer, s, a, b, failing,
+              "script path changes the meaning of a line without positional parameters" if failing
+              else "expand_args / parse_line / line_to_cmds differ from the model")
             continue
-        comp, posi, k, dm, sm = ma.groups()
-        _, _, _, di, si = mb.groups()
-        if (comp, posi, dm) != (mb.group(1), mb.group(2), di):
-            V("correspondence", layer, s, a, b, False, "parse_line / line_to_cmds / is_args_in_token differ from the model")
-            continue
-        law_i = si == di
+        mb = LAW.match(b)
+        if mb is None:
+            continue                      # PANIC on both sides ($@ with an empty argument slice)
+        comp, posi, _, di, si = mb.groups()
         if posi == "1" or comp == "0":
-            # outside the property's domain: positional parameter present, or unterminated line; model agreement only
-            # (an unterminated positional-free line: the model's expand_args, or left alone = expand_args_fixed)
-            if si != sm and not (posi == "0" and si == di):
-                V("correspondence", layer, s, a, b, False, "expand_args differs from the model (line outside the property's domain)")
-            continue
-        kc = klass(k)
-        if law_i:
-            if sm != si:
-                st["repaired"] = st.get("repaired", 0) + 1   # the model predicts a difference, the implementation has none
-                st.setdefault("repaired_eg", s)
-            if sm != dm and kc:
-                res.nontrivial("ok:" + s) if len(s) < 12 else None
-            continue
-        # the law fails on the implementation's own output
-        if kc is None:
+            continue                      # outside the property's domain: model agreement only
+        if si != di:
             V("oracle", layer, s, "segments/tokens unchanged: " + di, si, True,
-              "script path changes the meaning of a line outside every known-finding class")
-        elif si != sm:
-            V("oracle", layer, s, "as recorded for class %s: %s" % (kc, sm), si, True,
-              "the line's meaning changes on the script path, but not in the way recorded for class " + kc)
-        elif kc not in known:
-            V("oracle", layer, s, di, si, True, "class %s is not listed in known_findings.txt" % kc)
+              "script path changes the meaning of a line without positional parameters")
         else:
-            res.known(kc, "class=%s e.g. script line %r runs as %r" % (kc, s, si[:100]))
-            st[kc] = st.get(kc, 0) + 1
-            res.nontrivial(kc + ":" + di[:60])
-        if sm == si and sm == dm:
-            pass
-    return
+            st["law_holds"] = st.get("law_holds", 0) + 1
 
 
 def run(ctx, res):
@@ -154,20 +127,20 @@ def run(ctx, res):
             res.violate(kind=kind, layer=layer, input=inp, expected=exp, observed=obs, failing_input=failing, note=note)
 
     maxlen = 5 if ctx.thorough else 4
-    res.rule = ("L1a: law + correspondence of scripting::expand_args on every string up to length %d over %r; L1b: the C01 / C03 "
-                "generators and word-soup lines (redirections, variables, braces, substitutions, operators, 1-3 blanks), with and "
-                "without script arguments, and lines with positional parameters; L1c: is_args_in_token, "
-                "expand_args_for_single_token, wrap_sep_string, tokens_to_line on short inputs; L2: lines through -c / script / "
-                "function / source (+ pty sample), argv+stdout+files+status pairwise against -c and against the model's "
-                "prediction -c(rerender l). non-trivial = distinct line whose rendering differs from it" % (maxlen, TOKALPHA))
+    res.rule = ("L1a: law + correspondence of scripting::expand_args, and the re-rendering tokens_to_line o parse_line, on every "
+                "string up to length %d over %r; L1b: the C01 / C03 generators and word-soup lines (redirections, variables, "
+                "braces, substitutions, operators, 1-3 blanks), with and without script arguments, and lines with positional "
+                "parameters; L1c: is_args_in_token, expand_args_for_single_token, wrap_sep_string, tokens_to_line on short "
+                "inputs; L2: lines through -c / script / function / source (+ pty sample), argv+stdout+files+status pairwise "
+                "against -c; script texts with continuation lines against the model's fold. non-trivial = distinct complete "
+                "positional-free line whose bare re-rendering would have changed its segments/tokens (L1), distinct line (L2)"
+                % (maxlen, TOKALPHA))
     work = tempfile.mkdtemp(prefix="c16_")
     try:
-        # ------------------------------------------------------------ the recorded witnesses first (they name the findings)
-        wit = [k["input"].split(": ", 1)[-1] for k in known.values() if k["class"] in CLASSES]
-        if wit:
-            p = C.write_cases("c16_wit.txt", [C.case("law", s) for s in wit])
-            check_law(res, "L1-witness", wit, C.run_model(model, p), C.run_impl(impl, p, len(wit), env=HXENV), known, st, V)
-            res.count("L1_recorded_witnesses", len(wit))
+        # ------------------------------------------------------------ the former witnesses: regression cases that must pass
+        p = C.write_cases("c16_wit.txt", [C.case("law", s) for s in REGRESSION])
+        check_law(res, "L1-regression", REGRESSION, C.run_model(model, p), C.run_impl(impl, p, len(REGRESSION), env=HXENV), st, V)
+        res.count("L1_regression_witnesses", len(REGRESSION))
         # ------------------------------------------------------------ L1a exhaustive short lines
         toks = []
         for n in range(0, maxlen + 1):
@@ -179,28 +152,27 @@ def run(ctx, res):
         p = C.write_cases("c16_law.txt", [C.case("law", s) for s in toks])
         mo, io = C.run_model(model, p), C.run_impl(impl, p, len(toks), env=HXENV)
         res.count("L1a_law_short_lines", len(toks))
-        check_law(res, "L1a", toks, mo, io, known, st, V)
+        check_law(res, "L1a", toks, mo, io, st, V)
         res.sample({"layer": "L1a", "input": toks[4242], "model": mo[4242], "impl": io[4242]})
-        # text level: the implementation's output is the model's expand_args, or (repaired) expand_args_fixed
-        tt = [s for s in toks if len(s) != 5]          # (informational: the length-5 block is left out in thorough runs)
-        pr = C.write_cases("c16_rer.txt", [C.case("xa", s) for s in tt])
-        pf = C.write_cases("c16_rerfix.txt", [C.case("xafix", s) for s in tt])
-        ma, mf, ia = C.run_model(model, pr), C.run_model(model, pf), C.run_impl(impl, pr, len(tt), env=HXENV)
-        n_a = sum(1 for x, y in zip(ma, ia) if x == y)
-        n_f = sum(1 for x, y in zip(mf, ia) if x == y)
-        variant = "expand_args" if n_a == len(tt) else ("expand_args_fixed" if n_f == len(tt) else None)
-        # informational only: the binding comparison is on the observable (segments and tokens), above
-        res.extra["text_level_variant"] = variant or "neither (%d / %d of %d agree)" % (n_a, n_f, len(tt))
-        res.count("L1a_text", len(tt))
+        # the re-rendering itself (what lines with positional parameters still go through)
+        tt = [s for s in toks if len(s) != 5]          # (the length-5 block is left out in thorough runs)
+        pr = C.write_cases("c16_rt.txt", [C.case("rt", s) for s in tt])
+        ma, ia = C.run_model(model, pr), C.run_impl(impl, pr, len(tt), env=HXENV)
+        res.count("L1a_rerender", len(tt))
+        for s, a, b in zip(tt, ma, ia):
+            if a != b:
+                V("correspondence", "L1a", s, a, b, False, "tokens_to_line o parse_line differs from the model (Model/Rerender.v rerender)")
+            elif " R=" in a and a[2:a.index(" R=")] != a[a.index(" R=") + 3:a.index(" L=")]:
+                res.nontrivial(s) if len(s) <= 4 else None       # a line the bare round trip would change
         # ------------------------------------------------------------ L1b domain lines
         lines = gen_domain_lines(ctx)
         p = C.write_cases("c16_law2.txt", [C.case("law", s) for s in lines])
         mo, io = C.run_model(model, p), C.run_impl(impl, p, len(lines), env=HXENV)
         res.count("L1b_law_domain_lines", len(lines))
-        check_law(res, "L1b", lines, mo, io, known, st, V)
+        check_law(res, "L1b", lines, mo, io, st, V)
         for s, a in zip(lines, mo):
             m = LAW.match(a)
-            if m and m.group(1) == "1" and m.group(2) == "0" and m.group(3) == "0000":
+            if m and m.group(1) == "1" and m.group(2) == "0":
                 res.nontrivial(s)
         res.sample({"layer": "L1b", "input": lines[99], "model": mo[99], "impl": io[99]})
         # script arguments present: a positional-free line must come out the same
@@ -225,7 +197,7 @@ def run(ctx, res):
         mo3, io3 = C.run_model(model, p3), C.run_impl(impl, p3, len(pc), env=HXENV)
         res.count("L1b_positional", len(pc))
         for s, a, b in zip(pc, mo3, io3):
-            if strip_k(a) != b:
+            if a != b:
                 V("correspondence", "L1b", s, a, b, False, "expand_args with positional parameters differs from the model")
         # ------------------------------------------------------------ L1c small functions
         sc = []
@@ -253,7 +225,7 @@ def run(ctx, res):
         for s, a, b in zip(sc, mo4, io4):
             if a != b:
                 V("correspondence", "L1c", s, a, b, False, "helper function differs from the model")
-        res.extra["l1_known_class_counts"] = {k: v for k, v in st.items()}
+        res.extra["l1_counts"] = {k: v for k, v in st.items()}
         # ------------------------------------------------------------ L2 entry points
         layer2(ctx, res, known, V, work, lines)
     finally:
@@ -295,20 +267,26 @@ def fresh(work, tag):
     return d
 
 
-def run_entry(ctx, work, line, entry):
+def entry_text(line, entry):
+    """the text of the file run_script reads (and folds) for this entry point"""
+    if entry == "function":
+        return "function f() {\n" + line + "\n}\nf\n"
+    return line + "\n"
+
+
+def run_entry(ctx, work, line, entry, text=None):
     d = fresh(work, entry)
     sd = tempfile.mkdtemp(prefix="scr", dir=work)     # script files live OUTSIDE the cwd: a glob must list the same files
     try:
         if entry == "c":
             return observe(ctx, d, [ctx.cicada, "-c", line])
+        text = entry_text(line, entry) if text is None else text
         sp = os.path.join(sd, "s.sh")
-        if entry == "script":
-            open(sp, "w").write(line + "\n")
-        elif entry == "function":
-            open(sp, "w").write("function f() {\n" + line + "\n}\nf\n")
-        elif entry == "source":
-            open(os.path.join(sd, "inc.sh"), "w").write(line + "\n")
+        if entry == "source":
+            open(os.path.join(sd, "inc.sh"), "w").write(text)
             open(sp, "w").write("source " + os.path.join(sd, "inc.sh") + "\n")
+        else:
+            open(sp, "w").write(text)
         return observe(ctx, d, [ctx.cicada, sp])
     finally:
         shutil.rmtree(d, ignore_errors=True)
@@ -384,33 +362,38 @@ def run_pty(ctx, work, line):
 
 
 def same(a, b, with_stdout=True, with_status=True):
-    return (a["argv"] == b["argv"] and a["files"] == b["files"] and (not with_stdout or a["stdout"] == b["stdout"])
+    # the stages of a pipeline run concurrently: the order of their trace records is a race, so records are compared
+    # as a multiset (the order of list segments is C03's subject)
+    return (sorted(a["argv"]) == sorted(b["argv"]) and a["files"] == b["files"] and (not with_stdout or a["stdout"] == b["stdout"])
             and (not with_status or a["status"] == b["status"]))
+
+
+def model_strs(model, op, texts, name):
+    p = C.write_cases(name, [C.case(op, t) for t in texts])
+    return [C.dec(x[1:-1]) if x.startswith('"') else x for x in C.run_model(model, p)]
 
 
 def layer2(ctx, res, known, V, work, lines):
     rng = ctx.rng
     hp = os.path.join(ctx.helpers, "hp")
     model = ctx.model["C16"]
-    # not comparable between processes: the shell's pid ($$, also once an escape in front of it is lost)
+    # not comparable between processes: the shell's pid ($$)
     pool = [l for l in lines if "\t" not in l and "\n" not in l and "$$" not in l.replace("\\", "")]
     rng.shuffle(pool)
-    fixed = ["prog @ a\\\\", "prog @ a\\;b", "prog @ a\\ b", "prog @ a\\#b", "prog @ 'a';prog @ b", "prog @x0||prog @ b", "prog @ 'a b' \"c d\" e",
-             "prog @ \"a\\\"b\" ; prog @x3 || prog @ z", "prog @o hello > out.txt", "prog @ $V \"$V\" '$V'", "prog @ a{1,2}b",
-             "prog @x1 && prog @ no ; prog @ yes", "prog @o a | prog @r", "prog @   spaced    out  ", "prog @ a # comment",
-             "prog @ $(prog @o q)", "(prog @ a;prog @ b)", "prog @ x='a b'", "prog @ 'a'b"]
+    fixed = ["prog @ a\\\\", "prog @ 'a\\'", "prog @ a\\;b", "prog @ a\\ b", "prog @ a\\#b", "prog @ 'a';prog @ b", "prog @x0||prog @ b",
+             "prog @ 'a b' \"c d\" e", "prog @ \"a\\\"b\" ; prog @x3 || prog @ z", "prog @o hello > out.txt", "prog @ $V \"$V\" '$V'",
+             "prog @ a{1,2}b", "prog @x1 && prog @ no ; prog @ yes", "prog @o a | prog @r", "prog @   spaced    out  ",
+             "prog @ a # comment", "prog @ $(prog @o q)", "(prog @ a;prog @ b)", "prog @ x='a b'", "prog @ 'a'b", "prog @x7",
+             "prog @ a\\|b \\& \\> x", "prog @ a!b !", "prog @ a\\ "]
     pick = fixed + pool[:(700 if ctx.thorough else 110)]
     pick = [l.replace("prog", hp) for l in pick]
     pm = C.write_cases("c16_l2.txt", [C.case("law", l) for l in pick])
     mo = C.run_model(model, pm)
-    pm2 = C.write_cases("c16_l2r.txt", [C.case("rer", l) for l in pick])
-    rr = [C.dec(x[1:-1]) for x in C.run_model(model, pm2)]
+    ENT = ("script", "function", "source")
 
     def one(i):
         l = pick[i]
-        o = {e: run_entry(ctx, work, l, e) for e in ("c", "script", "function", "source")}
-        o["c_rerender"] = run_entry(ctx, work, rr[i], "c") if rr[i] != l else o["c"]
-        return o
+        return {e: run_entry(ctx, work, l, e) for e in ("c",) + ENT}
     with ThreadPoolExecutor(max_workers=max(2, C.NCPU // 2)) as ex:
         outs = list(ex.map(one, range(len(pick))))
     res.count("L2_lines_x_entry_points", len(pick) * 4)
@@ -419,48 +402,85 @@ def layer2(ctx, res, known, V, work, lines):
         m = LAW.match(a)
         if m is None:
             continue
-        comp, posi, k, dm, sm = m.groups()
+        comp, posi, _, dm, sm = m.groups()
         if comp == "0" or posi == "1":
             continue
         if any(o[e]["status"] == "TIMEOUT" for e in o):
             st["inconclusive_timeout"] = st.get("inconclusive_timeout", 0) + 1      # machine overloaded: no verdict
             continue
-        kc = klass(k)
         short = l.replace(hp, "hp")
-        # a mechanism outside expand_args (run_script's textual joining of continuation lines): no model prediction,
-        # so two outcomes only -- as -c (accepted) or recorded
+        res.nontrivial("L2:" + short)
+        # class trailing-backslash: the physical line ends in a backslash, run_script's fold joins it with the next one
+        # (a complete line can only end in an EVEN number of backslashes: the last one is escaped)
         tb = l.endswith("\\")
-        for e in ("script", "function", "source"):
-            ws = e != "function"      # the status of a function call is C15's subject (not the last command's status)
-            if same(o[e], o["c"], with_status=ws):
-                if dm != sm:
-                    st["accepted"] = st.get("accepted", 0) + 1
+        tbc = "trailing-backslash"
+        for e in ENT:
+            if same(o[e], o["c"]):
+                st["same_as_c"] = st.get("same_as_c", 0) + 1
                 continue
-            as_model = same(o[e], o["c_rerender"], with_status=ws)
-            if tb:
-                if "trailing-backslash" in known:
-                    res.known("trailing-backslash", "class=trailing-backslash e.g. %s line %r: argv %r, with -c: %r" % (
+            ls = l.rstrip(" \t")
+            if ls != l and (len(ls) - len(ls.rstrip("\\"))) % 2 == 1:
+                # class esc-trailing-blank-script: the script path trims the line with a plain trim(); recorded behaviour =
+                # what -c does with the trimmed line
+                if "esc-trailing-blank-script" not in known:
+                    V("oracle", "L2", l, o["c"], o[e], True, "class esc-trailing-blank-script is not listed in known_findings.txt")
+                elif same(o[e], run_entry(ctx, work, ls, "c")):
+                    res.known("esc-trailing-blank-script", "class=esc-trailing-blank-script e.g. %s line %r: argv %r, with -c: %r" % (
                         e, short, o[e]["argv"], o["c"]["argv"]))
-                    st["trailing-backslash"] = st.get("trailing-backslash", 0) + 1
+                    st["esc-trailing-blank-script"] = st.get("esc-trailing-blank-script", 0) + 1
                 else:
-                    V("oracle", "L2", l, o["c"], o[e], True, "class trailing-backslash is not listed in known_findings.txt")
-            elif kc is None:
+                    V("oracle", "L2", l, {"entry": "-c of the trimmed line", **run_entry(ctx, work, ls, "c")}, {"entry": e, **o[e]}, True,
+                      "an escaped trailing blank: differs from -c, and not in the way recorded for class esc-trailing-blank-script")
+                continue
+            if not tb:
                 V("oracle", "L2", l, {"entry": "-c", **o["c"]}, {"entry": e, **o[e]}, True,
-                  "the line behaves differently through entry point %s than through -c (outside every known class)" % e)
-            elif not as_model:
-                V("oracle", "L2", l, {"entry": "-c of the model's rendering %r" % rr[pick.index(l)], **o["c_rerender"]},
-                  {"entry": e, **o[e]}, True, "differs from -c, and not in the way recorded for class " + kc)
-            elif kc not in known:
-                V("oracle", "L2", l, o["c"], o[e], True, "class %s is not listed in known_findings.txt" % kc)
+                  "the line behaves differently through entry point %s than through -c" % e)
+                continue
+            # three-way: as the model's fold of the file predicts -> recorded; as -c -> repaired (above); else violation
+            txt = entry_text(l, e)
+            folded = model_strs(model, "fold", [txt], "c16_tb.txt")[0]
+            pred = run_entry(ctx, work, l, e, text=folded)
+            if not same(o[e], pred):
+                V("oracle", "L2", l, {"entry": e + " on the model's folding %r" % folded, **pred}, {"entry": e, **o[e]}, True,
+                  "a line ending in a backslash differs from -c, and not in the way recorded for class trailing-backslash")
+            elif tbc not in known:
+                V("oracle", "L2", l, o["c"], o[e], True, "class %s is not listed in known_findings.txt" % tbc)
             else:
-                res.known(kc, "class=%s e.g. %s line %r: argv %r, with -c: %r" % (kc, e, short, o[e]["argv"], o["c"]["argv"]))
-                st[kc] = st.get(kc, 0) + 1
-        if dm == sm and kc is None:
-            res.nontrivial("L2:" + short)
+                res.known(tbc, "class=%s e.g. %s line %r: argv %r, with -c: %r" % (tbc, e, short, o[e]["argv"], o["c"]["argv"]))
+                st[tbc] = st.get(tbc, 0) + 1
     res.sample({"layer": "L2", "line": pick[5].replace(hp, "hp"), "c": outs[5]["c"], "script": outs[5]["script"],
                 "function": outs[5]["function"], "source": outs[5]["source"]})
-    res.sample({"layer": "L2", "line": pick[0].replace(hp, "hp"), "c": outs[0]["c"], "script": outs[0]["script"]})
-    # -c joins its arguments without separator
+    res.sample({"layer": "L2", "line": pick[2].replace(hp, "hp"), "c": outs[2]["c"], "script": outs[2]["script"]})
+    # ---- script texts with continuation lines: cicada on the text vs cicada on the model's fold of it
+    pieces = [hp + " @ a", " b", "  c", " \\\n", "\\\n", "\\\n  ", " \t\\\n\t ", "\\\\\n", "\\\\\\\n", "\n", "\n" + hp + " @ d", " 'q\\\n r'", " e\\"]
+    texts = [hp + " @ a \\\n  b\n", hp + " @ a\\\nb\n", hp + " @ a\\\\\n" + hp + " @ b\n", hp + " @ a\\\\\\\nb\n",
+             hp + " @ a \\\n\\\n b\n", hp + " @ a\\\n"]
+    for _ in range(150 if ctx.thorough else 30):
+        texts.append(hp + " @ a" + "".join(rng.choice(pieces) for _ in range(rng.randint(1, 6))) + "\n")
+    fo = model_strs(model, "fold", texts, "c16_fold.txt")
+    ff = model_strs(model, "foldfix", texts, "c16_foldfix.txt")
+
+    def two(i):
+        return (run_entry(ctx, work, "", "script", text=texts[i]), run_entry(ctx, work, "", "script", text=fo[i]),
+                run_entry(ctx, work, "", "script", text=ff[i]))
+    with ThreadPoolExecutor(max_workers=max(2, C.NCPU // 2)) as ex:
+        fouts = list(ex.map(two, range(len(texts))))
+    res.count("L2_fold_texts", len(texts))
+    for t, f1, f2, (a, b, c) in zip(texts, fo, ff, fouts):
+        if "TIMEOUT" in (a["status"], b["status"], c["status"]):
+            continue
+        if "\\\n" in f1:
+            continue                       # (not a fixed point of the fold: running it again would fold again)
+        if same(a, b):
+            st["fold_as_model"] = st.get("fold_as_model", 0) + 1
+            if f1 != t:
+                res.nontrivial("fold:" + t.replace(hp, "hp"))
+        elif same(a, c):
+            st["fold_as_fixed_model"] = st.get("fold_as_fixed_model", 0) + 1
+        else:
+            V("correspondence", "L2-fold", t, {"text": f1, **b}, a, False,
+              "run_script's continuation folding differs from Model/Rerender.v fold_lines (and from fold_lines_fixed)")
+    # ---- -c joins its arguments without separator
     for parts in (["%s @ a" % hp, "b"], ["%s @" % hp, " 'x y'", " z"]):
         d1, d2 = fresh(work, "cj"), fresh(work, "cj")
         a = observe(ctx, d1, [ctx.cicada, "-c"] + parts)
@@ -469,8 +489,9 @@ def layer2(ctx, res, known, V, work, lines):
         if not same(a, b):
             V("correspondence", "L2", repr(parts), b, a, False, "-c with several arguments is not their concatenation (env_args_to_command_line)")
     # interactive prompt (sample)
-    # not at the prompt: lines whose helper reads stdin (the terminal there, /dev/null under -c), history expansion
-    ip = [i for i, l in enumerate(pick) if all(ord(ch) < 127 for ch in l) and "!" not in l and len(l) < 150 and "@r" not in l
+    # out of the domain at the prompt: `!!` (history expansion exists only there; extend_bangbang), and lines whose
+    # helper reads stdin (the terminal there, /dev/null under -c). trim_multiline_prompts only acts on a newline.
+    ip = [i for i, l in enumerate(pick) if all(ord(ch) < 127 for ch in l) and "!!" not in l and len(l) < 150 and "@r" not in l
           and "<" not in l]
     ip = ip[:len(fixed)] + ip[len(fixed):][:(30 if ctx.thorough else 6)]
     with ThreadPoolExecutor(max_workers=4) as ex:
